@@ -57,7 +57,12 @@ pub struct Prog {
     pub name: &'static str,
     pub pages: usize,
     pub threads: Vec<Vec<Op>>,
+    /// executed sequentially before the threads start (not interleaved): the initial bitmap state
+    pub init: Vec<Op>,
 }
+
+/// thread id under which the initial-state calls appear in a history
+pub const INIT_THREAD: usize = 99;
 
 fn exec(b: &AtomicBitmap, op: &Op) -> Ret {
     match op {
@@ -205,6 +210,14 @@ fn run_controlled(prog: &Prog, prefix: &[usize], policy: Box<dyn FnMut(usize, us
         cvs: (0..n).map(|_| Arc::new(Condvar::new())).collect(),
         done: done.clone(),
     });
+    let mut calls = vec![];
+    for op in &prog.init {
+        // main thread is unmanaged: the hook lets it through
+        let inv = tick();
+        let ret = exec(&bm, op);
+        let resp = tick();
+        calls.push(Call { thread: INIT_THREAD, op: op.clone(), inv, resp, ret });
+    }
     let mut handles = vec![];
     for (tid, ops) in prog.threads.iter().enumerate() {
         let bm = bm.clone();
@@ -231,7 +244,6 @@ fn run_controlled(prog: &Prog, prefix: &[usize], policy: Box<dyn FnMut(usize, us
             calls
         }));
     }
-    let mut calls = vec![];
     for h in handles {
         calls.extend(h.join().expect("worker"));
     }
@@ -414,18 +426,18 @@ fn check(prog: &Prog, calls: &[Call], words: &[u64]) -> Option<J> {
 fn catalogue() -> Vec<Prog> {
     use Op::*;
     vec![
-        Prog { name: "two-markers-one-word+harvest", pages: 70, threads: vec![vec![SetBit(3)], vec![SetBit(5)], vec![Harvest]] },
-        Prog { name: "marker-range-vs-harvester", pages: 70, threads: vec![vec![MarkRange(3, 2)], vec![Harvest, Harvest]] },
-        Prog { name: "two-markers+clone", pages: 70, threads: vec![vec![MarkRange(3, 1), SetBit(9)], vec![SetBit(5)], vec![Clone]] },
-        Prog { name: "marker-spanning-words-vs-harvester", pages: 130, threads: vec![vec![MarkRange(62, 4)], vec![Harvest]] },
-        Prog { name: "marker-vs-reset-range-vs-harvester", pages: 70, threads: vec![vec![SetBit(4)], vec![ResetRange(3, 3)], vec![Harvest]] },
-        Prog { name: "set-bit-vs-reset-bit-same-word", pages: 70, threads: vec![vec![SetBit(7), SetBit(8)], vec![ResetBit(7), SetBit(9)]] },
-        Prog { name: "marker-vs-two-harvesters", pages: 70, threads: vec![vec![SetBit(1), SetBit(2)], vec![Harvest], vec![Harvest]] },
-        Prog { name: "mark-dirty-vs-harvest-vs-read", pages: 70, threads: vec![vec![MarkDirty(10, 2)], vec![Harvest], vec![IsBitSet(10), IsBitSet(11)]] },
-        Prog { name: "three-markers-one-word", pages: 70, threads: vec![vec![SetBit(0)], vec![SetBit(1)], vec![SetBit(63), Harvest]] },
-        Prog { name: "marker-vs-reset-all", pages: 130, threads: vec![vec![SetBit(3), SetBit(70)], vec![Reset], vec![Harvest]] },
-        Prog { name: "remark-after-harvest", pages: 70, threads: vec![vec![SetBit(3), SetBit(3)], vec![Harvest, SetBit(5)]] },
-        Prog { name: "range-mark-vs-range-reset-overlap", pages: 70, threads: vec![vec![MarkRange(2, 3)], vec![ResetRange(3, 3)], vec![Clone]] },
+        Prog { name: "two-markers-one-word+harvest", pages: 70, threads: vec![vec![SetBit(3)], vec![SetBit(5)], vec![Harvest]] , init: vec![] },
+        Prog { name: "marker-range-vs-harvester", pages: 70, threads: vec![vec![MarkRange(3, 2)], vec![Harvest, Harvest]] , init: vec![] },
+        Prog { name: "two-markers+clone", pages: 70, threads: vec![vec![MarkRange(3, 1), SetBit(9)], vec![SetBit(5)], vec![Clone]] , init: vec![] },
+        Prog { name: "marker-spanning-words-vs-harvester", pages: 130, threads: vec![vec![MarkRange(62, 4)], vec![Harvest]] , init: vec![] },
+        Prog { name: "marker-vs-reset-range-vs-harvester", pages: 70, threads: vec![vec![SetBit(4)], vec![ResetRange(3, 3)], vec![Harvest]] , init: vec![] },
+        Prog { name: "set-bit-vs-reset-bit-same-word", pages: 70, threads: vec![vec![SetBit(7), SetBit(8)], vec![ResetBit(7), SetBit(9)]] , init: vec![] },
+        Prog { name: "marker-vs-two-harvesters", pages: 70, threads: vec![vec![SetBit(1), SetBit(2)], vec![Harvest], vec![Harvest]] , init: vec![] },
+        Prog { name: "mark-dirty-vs-harvest-vs-read", pages: 70, threads: vec![vec![MarkDirty(10, 2)], vec![Harvest], vec![IsBitSet(10), IsBitSet(11)]] , init: vec![] },
+        Prog { name: "three-markers-one-word", pages: 70, threads: vec![vec![SetBit(0)], vec![SetBit(1)], vec![SetBit(63), Harvest]] , init: vec![] },
+        Prog { name: "marker-vs-reset-all", pages: 130, threads: vec![vec![SetBit(3), SetBit(70)], vec![Reset], vec![Harvest]] , init: vec![] },
+        Prog { name: "remark-after-harvest", pages: 70, threads: vec![vec![SetBit(3), SetBit(3)], vec![Harvest, SetBit(5)]] , init: vec![] },
+        Prog { name: "range-mark-vs-range-reset-overlap", pages: 70, threads: vec![vec![MarkRange(2, 3)], vec![ResetRange(3, 3)], vec![Clone]] , init: vec![] },
     ]
 }
 
@@ -469,13 +481,33 @@ fn systematic() -> Vec<Prog> {
     for (xn, x) in &xs {
         for (fnm, f) in &foreign {
             let name = intern(format!("sys/{}-vs-{}", xn, fnm));
-            v.push(Prog { name, pages: 70, threads: vec![x.clone(), f.clone()] });
+            v.push(Prog { name, pages: 70, threads: vec![x.clone(), f.clone()], init: vec![] });
         }
     }
     // three threads: X vs one marker and one harvester
     for (xn, x) in xs.iter().take(4) {
         let name = intern(format!("sys3/{}-vs-marker-vs-harvester", xn));
-        v.push(Prog { name, pages: 70, threads: vec![x.clone(), vec![MarkRange(5, 2)], vec![Harvest]] });
+        v.push(Prog { name, pages: 70, threads: vec![x.clone(), vec![MarkRange(5, 2)], vec![Harvest]], init: vec![] });
+    }
+    // value-dependent states of a word: every page of the first word dirty (and, as a contrast,
+    // all but one) before the threads start; two clearing operations and a re-mark race on it
+    for (iname, init) in [("full-word", vec![MarkRange(0, 64)]), ("full-but-one", vec![MarkRange(0, 63)]), ("full-two-words", vec![MarkRange(0, 70)])] {
+        let shapes: Vec<(&str, Vec<Vec<Op>>)> = vec![
+            ("two-harvesters", vec![vec![Harvest], vec![Harvest]]),
+            ("harvest-vs-reset-then-remark", vec![vec![Harvest], vec![ResetRange(5, 2), SetBit(5)]]),
+            ("harvest-vs-reset_bit-then-remark", vec![vec![Harvest], vec![ResetBit(5), SetBit(5)]]),
+            ("harvest-vs-remark-then-harvest", vec![vec![Harvest], vec![SetBit(5), Harvest]]),
+            ("reset-all-vs-harvest-then-remark", vec![vec![Reset], vec![Harvest, SetBit(5)]]),
+            ("reset_range-vs-harvest-then-remark", vec![vec![ResetRange(4, 3)], vec![Harvest, SetBit(5)]]),
+            ("clone-vs-harvest", vec![vec![Clone], vec![Harvest, SetBit(5)]]),
+        ];
+        for (sn, threads) in shapes {
+            if iname == "full-two-words" && sn.starts_with("reset_range") {
+                continue;
+            }
+            let name = intern(format!("sysinit/{}/{}", iname, sn));
+            v.push(Prog { name, pages: 70, threads, init: init.clone() });
+        }
     }
     v
 }
@@ -503,7 +535,9 @@ fn larger(r: &mut Rng) -> Prog {
         }
         threads.push(ops);
     }
-    Prog { name: "random-3x", pages, threads }
+    // one time in three the word starts fully dirty
+    let init = if r.chance(1, 3) { vec![Op::MarkRange(0, 64)] } else { vec![] };
+    Prog { name: "random-3x", pages, threads, init }
 }
 
 fn report(prog: &Prog, decisions: &[(usize, usize)], witness: J, mode: &str) {
@@ -563,6 +597,13 @@ static CLOCK: AtomicU64 = AtomicU64::new(0);
 fn run_free(prog: &Prog) -> (Vec<Call>, Vec<u64>) {
     let bm = Arc::new(AtomicBitmap::new(prog.pages, NonZeroUsize::new(1).unwrap()));
     let start = Arc::new(std::sync::Barrier::new(prog.threads.len()));
+    let mut calls = vec![];
+    for op in &prog.init {
+        let inv = CLOCK.fetch_add(1, Ordering::SeqCst);
+        let ret = exec(&bm, op);
+        let resp = CLOCK.fetch_add(1, Ordering::SeqCst);
+        calls.push(Call { thread: INIT_THREAD, op: op.clone(), inv, resp, ret });
+    }
     let mut hs = vec![];
     for (tid, ops) in prog.threads.iter().enumerate() {
         let bm = bm.clone();
@@ -580,7 +621,6 @@ fn run_free(prog: &Prog) -> (Vec<Call>, Vec<u64>) {
             calls
         }));
     }
-    let mut calls = vec![];
     for h in hs {
         calls.extend(h.join().unwrap());
     }
